@@ -494,6 +494,24 @@ func (g *HistGen) genPut() {
 }
 
 func (g *HistGen) updateExpr(t *TableSpec, ctx *ExprCtx) string {
+	// the key attributes of the indexes the table really has: gaining, changing and losing an index key
+	if all := append(append([]IndexSpec{}, t.GSI...), t.LSI...); len(all) > 0 && g.r.Chance(25) {
+		ix := pick(g.r, all)
+		attr := ix.Hash
+		if ix.Range != nil && g.r.Bool() {
+			attr = *ix.Range
+		}
+		if attr[0] != t.Hash[0] && (t.Range == nil || attr[0] != t.Range[0]) {
+			if g.r.Chance(45) {
+				return "REMOVE " + ctx.name([]byte(attr[0]))
+			}
+			pool := gVals
+			if attr[1] == "N" {
+				pool = rangeValsNum
+			}
+			return "SET " + ctx.name([]byte(attr[0])) + " = " + ctx.value(g.keyVal(attr[1], pool))
+		}
+	}
 	ixAttrs := []string{"g", "g2", "r2", "l"}
 	switch g.r.Intn(14) {
 	case 12: // a map whose members are named like the key attributes
@@ -859,7 +877,31 @@ func (g *HistGen) searchOpX(kind string, forceScan bool) *Op {
 	return op
 }
 
-func (g *HistGen) genQuery() { g.ops = append(g.ops, g.searchOp("query")) }
+func (g *HistGen) genQuery() {
+	// a partition whose number sort keys are 1, 10 and 2 — adjacent by value, not by text — read with a range condition
+	// and nothing else: every match comes back, whatever lies between two matches in the key list
+	if t := g.pickTable(); t.Range != nil && t.Range[1] == "N" && t.Hash[1] == "S" && t.Name != "nosuchtable" && g.r.Chance(12) {
+		h := pick(g.r, g.hashPool())
+		if h != "" {
+			for _, r := range []string{"1", "10", "2"} {
+				it := Item{{[]byte(t.Hash[0]), S(h)}, {[]byte(t.Range[0]), Nn(r)}, {[]byte("v"), S("1")}}
+				g.ops = append(g.ops, &Op{Op: "put", Table: HexS(t.Name), Item: it})
+				g.notePut(t, it)
+			}
+			ctx := NewExprCtx(g.r)
+			op := &Op{Op: "query", Table: HexS(t.Name), Forward: g.r.Bool(), MaxPages: 40}
+			cmp := pick(g.r, []string{"<=", "<", ">=", ">"})
+			bound := pick(g.r, []string{"2", "3", "9", "1"})
+			op.KeyTree = &Cond{K: "and", A: &Cond{K: "cmp", Op: "=", L: pathOp(t.Hash[0]), R: valOp(S(h))},
+				B: &Cond{K: "cmp", Op: cmp, L: pathOp(t.Range[0]), R: valOp(Nn(bound))}}
+			op.KeyCond = HexS(ctx.Print(op.KeyTree, 0))
+			op.setExprs(ctx.Names, ctx.Values)
+			g.ops = append(g.ops, op)
+			return
+		}
+	}
+	g.ops = append(g.ops, g.searchOp("query"))
+}
 
 func (g *HistGen) genPages() {
 	op := g.searchOp("pages")
@@ -1113,7 +1155,42 @@ func (g *HistGen) genNative() {
 	}
 	t := pick(g.r, live)
 	texts := nativeTexts
-	switch g.r.Intn(7) {
+	switch g.r.Intn(8) {
+	case 7:
+		// a registration is for one kind of expression: a matcher registered as a filter (or key condition) says
+		// nothing about a write condition with the same text, and the other way round
+		if !g.native {
+			g.ops = append(g.ops, &Op{Op: "activateNative"})
+			g.native = true
+		}
+		e := pick(g.r, []string{"v = :x", "attribute_exists(v)"})
+		it := Item{}
+		for _, kv := range g.genItemFor(t) {
+			if string(kv.K) != "v" {
+				it = append(it, kv)
+			}
+		}
+		it = append(it, KV{[]byte("v"), S("1")})
+		g.ops = append(g.ops, &Op{Op: "put", Table: HexS(t.Name), Item: it})
+		g.notePut(t, it)
+		vals := map[string]AV{}
+		if strings.Contains(e, ":x") {
+			vals[":x"] = S("1")
+		}
+		id := 2 + g.r.Intn(4)
+		if g.r.Bool() {
+			g.ops = append(g.ops, &Op{Op: "registerMatcher", Table: HexS(t.Name), Kind: pick(g.r, []string{"filter", "key"}), Expr: HexS(e), ID: id})
+			h := HexS(e)
+			op := &Op{Op: "put", Table: HexS(t.Name), Item: it, Cond: &h}
+			op.setExprs(map[string]string{}, vals)
+			g.ops = append(g.ops, op)
+		} else {
+			g.ops = append(g.ops, &Op{Op: "registerMatcher", Table: HexS(t.Name), Kind: "cond", Expr: HexS(e), ID: id})
+			op := &Op{Op: "query", Table: HexS(t.Name), Scan: true, Forward: true, Filter: HexS(e)}
+			op.setExprs(map[string]string{}, vals)
+			g.ops = append(g.ops, op)
+		}
+		g.regs = append(g.regs, e)
 	case 6:
 		// use, register, use again: a matcher registered after the table already evaluated the
 		// very same text must fire from then on (and a text that loses its registration falls back)
